@@ -41,6 +41,10 @@ func recvCorpus() []struct {
 		{0, []rop{dgood(0, []byte("ABC")), {kind: 'C'}, dgood(1, []byte("DEF")), rd(8), rd(8)}},        // local close: later data must be refused, not panic
 		{0, []rop{{kind: 'C'}, dgood(0, []byte("ABC")), dgood(0, []byte("ABC"))}},
 		{0, []rop{dgood(0, nil), dgood(1, []byte("Z")), rd(4)}},
+		// after a close the reader drains with buffers much smaller than what is pending
+		{0, []rop{dgood(0, []byte("0123456789abcdefghijklmnopqrstuvwxyz")), {kind: 'c'}, rd(1), rd(7), rd(1), rd(7), rd(7), rd(64), rd(1)}},
+		{0, []rop{dgood(0, []byte("0123456789abcdefghij")), dgood(1, []byte("klmnopqrstuvwxyz")), {kind: 'C'}, rd(7), rd(7), rd(1), rd(64), rd(64)}},
+		{0, []rop{dgood(0, []byte("abcdefgh")), rd(1), {kind: 'c'}, rd(1), rd(1), rd(64), rd(64)}},
 		// both directions at once on one connection
 		{0, []rop{{kind: 'w', data: []byte("hello")}, dgood(0, []byte("ABC")), {kind: 'w', data: []byte("wo")}, bad(1, "REVG!!!!", "corrupt"), {kind: 'w', data: []byte("rld!")}, dgood(1, []byte("DEF")), rd(16), {kind: 'C'}}},
 		{8, []rop{dgood(0, []byte("ABCDEF")), {kind: 'w', data: []byte("xy")}, {kind: 'c'}, {kind: 'w', data: []byte("late")}, rd(16), rd(4)}},
@@ -165,6 +169,20 @@ func RunWaits(r *common.Run) {
 		runCloseFail(r, f, false)
 		runCloseFail(r, f, true)
 	}
+	// the peer closes a stream that still holds unflushed / flushed data: the close path must
+	// not wait on the serve goroutine for anything; then late replies to a finished stream
+	nt := 0
+	for _, carrier := range []string{"iq", "message"} {
+		for n := 1; n <= 7; n++ {
+			for _, flush := range []bool{false, true} {
+				r.Mark("case ibb-peer-close %d", nt)
+				nt++
+				runTail(r, n%2 == 0, carrier, n, flush, true)
+			}
+		}
+	}
+	r.Mark("case ibb-late-replies")
+	runLateReplies(r)
 }
 
 // Run is the C15 runner.
@@ -268,6 +286,8 @@ func Run(r *common.Run) error {
 	}
 	r.Mark("case wrap-quick")
 	runWrapQuick(r)
+	r.Mark("case late-replies")
+	runLateReplies(r)
 	for i, c := range []struct {
 		acked bool
 		bs    uint16
